@@ -14,7 +14,10 @@ use crate::{
 };
 
 pub fn parse_meta(token_stream: TokenStream) -> Result<Meta, syn::Error> {
+    #[cfg(not(nutype_verif))]
     let input: DeriveInput = syn::parse(token_stream.into())?;
+    #[cfg(nutype_verif)]
+    let input: DeriveInput = syn::parse2(token_stream)?;
 
     let input_span = input.span();
     let DeriveInput {
